@@ -33,6 +33,27 @@ CLAIMED = {
         note=TB + "hashlib.sha256 trusted as the checksum oracle; MessageSession policy is proved on the model, its tie to session.py is by the C07 session scenarios.",
         technique="Coq proof (refinement of the chunked reader to a stream parser, list induction) + vm_compute correspondence against the real BitcoinFramer",
         ref='6/C07'),
+    'C16': dict(
+        text=("Proof: independent server-side parsers of SOCKS4/4a requests, RFC 1928 greeting/CONNECT and RFC 1929 read back "
+              "from the client's bytes exactly the intended version, command, port (network order), address type/address, "
+              "user id, offered methods ([0], or [0,2] iff credentials); the list of messages sent as a function of the "
+              "proxy's replies (credentials only if method 2 was selected); the constructors' rejections characterised "
+              "(iff); a constructed SOCKS4/4a client has a NUL-free user id (after the fix of F16). Literals and tables are "
+              "re-extracted from the running code on every check. Correspondence byte-exact against the real clients."),
+        note=TB + "Host names are assumed NUL-free (guaranteed by NetAddress validation, C18); lone surrogates in credentials are outside the domain (note N2).",
+        technique="Coq proof (parser round trips over symbolic byte lists) + behavioural fact extraction + vm_compute correspondence",
+        ref='6/C16'),
+    'C17': dict(
+        text=("Proof: the handshake driven through a socket that returns 1..count bytes per sock_recv equals the socket-free "
+              "exact-read reference for EVERY segmentation (hence outcome, messages sent and bytes left are segmentation "
+              "independent); it always terminates; its outcome equals an independent RFC reading of the reply stream "
+              "(rfc4/rfc5): success iff well-formed grant, refusal -> SOCKSFailure, malformed/truncated -> SOCKSProtocolError, "
+              "and on success exactly the reply bytes (8, or 2[+2]+4+addr+2 for every address length 0..255) were consumed. "
+              "All byte values by case analysis, not enumeration. Correspondence: real _handshake over a fake socket, every "
+              "value of every decision byte, EOF at every offset, all address lengths, three segmentations."),
+        note=TB + "sock_recv is assumed to return between 1 and count bytes or b'' at EOF.",
+        technique="Coq proof (refinement of the socket loop to exact reads, symbolic case analysis of the reply state machine) + vm_compute correspondence",
+        ref='6/C17'),
 }
 
 REASONS = {}
